@@ -59,6 +59,8 @@ structure Store where
   vecs : Array VRef := #[]
   matA : Array MRef := #[]
   matB : Array MRef := #[]
+  svecs : Array VRef := #[]   -- sparse operands: same denotation, stored densely in the model
+  smats : Array MRef := #[]
 
 def arrMem : MemOps (Array Rat) Rat where
   rd := fun s a => s.getD a 0
@@ -93,6 +95,7 @@ def rat? : SE → Option Rat
 partial def placeM (st : Store) : SE → Option MRef
   | .list [.atom "A", k] => do st.matA[(← nat? k)]?
   | .list [.atom "B", k] => do st.matB[(← nat? k)]?
+  | .list [.atom "C", k] => do st.smats[(← nat? k)]?
   | .list [.atom "trans", m] => do (← placeM st m).trans
   | .list [.atom "mrange", m, s1, e1, s2, e2] => do
     (← placeM st m).range (← nat? s1) (← nat? e1) (← nat? s2) (← nat? e2)
@@ -102,6 +105,7 @@ partial def placeM (st : Store) : SE → Option MRef
 
 partial def placeV (st : Store) : SE → Option VRef
   | .list [.atom "v", k] => do st.vecs[(← nat? k)]?
+  | .list [.atom "s", k] => do st.svecs[(← nat? k)]?
   | .list [.atom "range", v, s, e] => do (← placeV st v).range (← nat? s) (← nat? e)
   | .list [.atom "row", m, i] => do (← placeM st m).row (← nat? i)
   | .list [.atom "col", m, j] => do (← placeM st m).column (← nat? j)
@@ -217,7 +221,10 @@ def showStore (st : Store) : String :=
   let vs := st.vecs.toList.map fun r => showVec (r.read rd : VExp Rat).toList
   let ms (l : Array MRef) := l.toList.map fun r =>
     s!"{r.size1}x{r.size2}" ++ showVec ((r.read rd : MExp Rat).toRows.flatten)
-  " ".intercalate (vs ++ ms st.matA ++ ms st.matB)
+  let svs := st.svecs.toList.map fun r => "s" ++ showVec (r.read rd : VExp Rat).toList
+  let sms := st.smats.toList.map fun r =>
+    s!"s{r.size1}x{r.size2}" ++ showVec ((r.read rd : MExp Rat).toRows.flatten)
+  " ".intercalate (vs ++ ms st.matA ++ ms st.matB ++ svs ++ sms)
 
 def doStmt (st : Store) (form : String) (tgt e : SE) : Except String Store := do
   let some (f, na) := formF form | .error s!"form {form}"
@@ -298,6 +305,44 @@ def step (st : Store) (line : String) : Store × String :=
       let st := { st with mem := st.mem ++ cells.toArray }
       if rm then ({ st with matA := st.matA.push r }, "ok") else ({ st with matB := st.matB.push r }, "ok")
     | _, _, _ => (st, "bad-op")
+  | "svec" :: n :: entries =>
+    match n.toNat? with
+    | some n =>
+      let cells := entries.foldl (fun (acc : Option (Array Rat)) e => do
+        let a ← acc
+        match e.splitOn ":" with
+        | [i, v] => do
+          let i ← i.toNat?
+          let v ← parseRat v
+          if i < n then some (a.setIfInBounds i v) else none
+        | _ => none) (some (Array.replicate n (0 : Rat)))
+      match cells with
+      | some cells =>
+        let r := VRef.container st.mem.size n
+        ({ st with mem := st.mem ++ cells, svecs := st.svecs.push r }, "ok")
+      | none => (st, "bad-op")
+    | none => (st, "bad-op")
+  | "smat" :: n1 :: n2 :: entries =>
+    match n1.toNat?, n2.toNat? with
+    | some n1, some n2 =>
+      let cells := entries.foldl (fun (acc : Option (Array Rat)) e => do
+        let a ← acc
+        match e.splitOn ":" with
+        | [ij, v] =>
+          match ij.splitOn "," with
+          | [i, j] => do
+            let i ← i.toNat?
+            let j ← j.toNat?
+            let v ← parseRat v
+            if i < n1 ∧ j < n2 then some (a.setIfInBounds (i * n2 + j) v) else none
+          | _ => none
+        | _ => none) (some (Array.replicate (n1 * n2) (0 : Rat)))
+      match cells with
+      | some cells =>
+        let r := MRef.container st.mem.size n1 n2 true
+        ({ st with mem := st.mem ++ cells, smats := st.smats.push r }, "ok")
+      | none => (st, "bad-op")
+    | _, _ => (st, "bad-op")
   | "stmt" :: _k :: form :: rest =>
     match parseSE rest with
     | .ok (tgt, rest') =>
